@@ -3,7 +3,7 @@ compute-framework object (compute_framework.py) and WorkerManager.join_all (work
 from __future__ import annotations
 
 from harness.extract import REPO
-from harness.pytrans import FnSpec, ModuleSpec, ModuleTranslator, Opaque, loop_body_of
+from harness.pytrans import FnSpec, ModuleSpec, ModuleTranslator, Opaque, loop_body_of, while_test_of
 
 SETS4 = {"required_uuids": "set", "step_uuid": "set", "finished_steps": "set", "currently_running_steps": "set"}
 
@@ -39,6 +39,10 @@ def run_loop_spec() -> ModuleSpec:
                 continue_is_return=True,
                 doc="the body of `for step in self.execution_planner` inside `compute_stream`, for one step",
             ),
+            FnSpec("compute", {}, lean_name="computeWhileCond", slicer=while_test_of(), live_in={"to_finish_ids": "set", "finished_ids": "set"}, ret="bool",
+                   doc="the test of `while ...:` in `compute` (the loop goes on while it is true)"),
+            FnSpec("compute_stream", {}, lean_name="computeStreamWhileCond", slicer=while_test_of(), live_in={"to_finish_ids": "set", "finished_ids": "set"}, ret="bool",
+                   doc="the test of `while ...:` in `compute_stream`"),
         ],
         attrs={"step.required_uuids": ("step.required", "set")},
         getters={"step.get_uuids": ("step.uuids", "set")},
